@@ -126,6 +126,18 @@ func graphQ2() *Graph {
 var c01Graphs = map[string]func() *Graph{
 	"tt3": func() *Graph { return TruthTableGraph(3, true) },
 	"tt4": func() *Graph { return TruthTableGraph(4, true) },
+	// size thresholds: the truth table with decoys replicated 20 times (480 nodes, 320 of them targets)
+	"tt3x20": func() *Graph {
+		base := TruthTableGraph(3, true)
+		g := &Graph{}
+		for r := 0; r < 20; r++ {
+			for _, n := range base.Nodes {
+				cp := g.Add(fmt.Sprintf("%s-r%d", n.ID, r), n.Types...)
+				cp.Props = n.Props
+			}
+		}
+		return g
+	},
 	"q1":  graphQ1,
 	"q2":  graphQ2,
 }
@@ -146,7 +158,7 @@ func c01Graph(name string) (*Graph, string) {
 func init() {
 	Register(Meta{
 		ID: "C01", Level: "exploration",
-		Rule: "family prop: every formula over not/and/or/if/if-else with <=S connective nodes and width<=3 over atoms p1..p3 (ordered operands, repetition, explicit and implicit `and` spellings), each decided on all 8 truth assignments x {target, non-target, doubly-typed} nodes; family quant: nested/atLeast k/atMost k over every inner formula of size<=1 on child atoms, in 9 connective contexts, on 71 parents = atom bit x every multiset of <=3 children over 4 child kinds (children shared); family depth: quantifier chains and sibling quantifiers to depth 3 on a 3-layer graph; family atoms: documented atomic constraint kinds, plain and negated, on their value domains. Oracle = recursive classical evaluator written from the statement. Non-trivial = formula whose reference truth table over the target nodes has both values; distinct by rendered profile text.",
+		Rule:        "family prop: every formula over not/and/or/if/if-else with <=S connective nodes and width<=3 over atoms p1..p3 (ordered operands, repetition, explicit and implicit `and` spellings), each decided on all 8 truth assignments x {target, non-target, doubly-typed} nodes; family quant: nested/atLeast k/atMost k over every inner formula of size<=1 on child atoms, in 9 connective contexts, on 71 parents = atom bit x every multiset of <=3 children over 4 child kinds (children shared); family depth: quantifier chains and sibling quantifiers to depth 3 on a 3-layer graph; family atoms: documented atomic constraint kinds, plain and negated, on their value domains. Oracle = recursive classical evaluator written from the statement. Non-trivial = formula whose reference truth table over the target nodes has both values; distinct by rendered profile text.",
 		Assumptions: []string{"json-gold flattening of an already flat, fully expanded document is the identity on the graph (cross-checked by C05)"},
 	}, c01Gen, c01Run)
 }
@@ -186,6 +198,13 @@ func c01Gen(tier string, emit func(c01Case)) {
 		}
 	}
 	packEmit("prop", "tt3", all)
+	{
+		var small []*F
+		for s := 0; s <= 1; s++ {
+			small = append(small, PropFormulas(s, []int{1, 2, 3}, 3)...)
+		}
+		packEmit("prop-large", "tt3x20", small)
+	}
 
 	// ---- family 1w: wide connectives — and/or of width 4 (thorough: also 5) whose operands are atoms and
 	// two-member conjunctions / disjunctions over 4 atoms (operand multisets; the translator sorts operands)
